@@ -267,6 +267,13 @@ func (o *oracle) afterRevReconcile(out xrh.Outcome, wasFaulted bool, pre, post [
 	if cur.spec != o.expected[w.current] {
 		o.fail("R4/current-spec-differs", "revision %s (content %s) has spec %s, the Composition has %s", cur.name, w.current, cur.spec, o.expected[w.current])
 	}
+	// "Its" revisions are the ones the Composition controls (that is what an
+	// Automatic XR chooses among): the revision of the current content is one
+	// of them after a completed reconcile, also when the owner references
+	// were lost in a backup / restore.
+	if !cur.controlled {
+		o.fail("R4/current-not-controlled/"+o.ctx, "after a completed reconcile revision %s of the current content %s is not controlled by the Composition (an Automatic XR cannot select it): before [%s] after [%s]", cur.name, w.current, describe(pre), describe(post))
+	}
 	for _, x := range post {
 		if x.uid != cur.uid && x.num >= cur.num {
 			o.fail("R4/not-highest/"+o.ctx, "after a completed reconcile revision %s of the current content %s has number %d but %s (content %s) has %d: before [%s] after [%s]", cur.name, w.current, cur.num, x.name, x.content, x.num, describe(pre), describe(post))
